@@ -133,6 +133,7 @@ fn main() {
         Some("c20") => c20::main(tier(args.get(1))),
         Some("c18") => c18::main(tier(args.get(1))),
         Some("c18-proc") => c18::proc_main(),
+        Some("c18-debug") => c18::debug_plan(args.get(1).and_then(|s| s.parse().ok()).unwrap_or(0)),
         Some("c19-real") => c19::real_main(),
         Some("c19-one") => c19::one_main(&args[1..]),
         Some("c19-worker") => c19::worker_main(&args[1..]),
